@@ -593,6 +593,22 @@ func rfTraceVerdict(P *Program) *rfVerdict {
 				}
 				// the receiver is a compressor that is there
 				v.checked["codec"]++
+				{
+					var pc *cpCell
+					switch rv := b.decomp.c.Args[0].(type) {
+					case cpIface:
+						if p, isP := rv.V.(cpPtr); isP {
+							pc = p.C
+						}
+					case cpPtr:
+						pc = rv.C
+					}
+					if pc != nil && t.globalCells[pc] {
+						if st, isS := pc.T.Underlying().(*types.Struct); pc.T != nil && isS && st.NumFields() > 0 {
+							add("codec", fmt.Sprintf("the decompressor called at %s is an object kept in package-level state (%s): its buffers are shared by every reader, nested or concurrent", pos(b.decomp), typeKey(pc.T)))
+						}
+					}
+				}
 				switch rv := b.decomp.c.Args[0].(type) {
 				case cpIface:
 					if _, isNil := rv.V.(cpNil); isNil || rv.T == nil {
@@ -1119,6 +1135,9 @@ func ctAgreeByTrace(c *Ctx) bool {
 		c.Bad("avro.ReadFile/decoder-source", "-", conflict)
 	}
 	wt, wfn := writerCompTable(P, an.compIface)
+	if ft, folded := writerCompTableByFold(P); folded {
+		wt = ft
+	}
 	if !c.Anchor(wt != nil, "NewFileWriter") {
 		return true
 	}
@@ -1138,6 +1157,11 @@ func ctAgreeByTrace(c *Ctx) bool {
 			c.Bad(key, rt.where[n], fmt.Sprintf("codec name %q selects %s in ReadFile but %s in NewFileWriter", n, r, w))
 		default:
 			c.OK(key, rt.where[n], fmt.Sprintf("%q -> %s in both ReadFile (read off its traces) and NewFileWriter", n, r))
+		}
+	}
+	for n, w := range wt.byName {
+		if !contains(specCompression, n) {
+			c.Bad("codec-name/"+n+"/writer", wt.where[n], fmt.Sprintf("NewFileWriter accepts the codec name %q (giving %s) and the header carries the name as given: that is not one of the specification's codec names, so no conformant reader can open the file", n, w))
 		}
 	}
 	for n, r := range rt.byName {
@@ -1192,4 +1216,103 @@ func rfEOFDecided(P *Program, fn *ssa.Function) bool {
 	}
 	t := readFileTrace(P, rfAnchors(P))
 	return t.ok && t.visited[fn]
+}
+
+// writerCompTableByFold reads NewFileWriter's codec table off a fold of it (schema and codec name unknown):
+// for each outcome that succeeds, which name the path found the argument equal to (a comparison, or an entry
+// of a table of constructors) and which concrete compressor the writer it returns holds.
+func writerCompTableByFold(P *Program) (*compTable, bool) {
+	fn := P.Func(P.Avro, "NewFileWriter")
+	if fn == nil || fn.Blocks == nil || len(fn.Params) != 2 {
+		return nil, false
+	}
+	e := &cpEngine{P: P, MaxOut: 200, MaxSteps: 20000, MaxForks: 24, MaxDepth: 6, visited: map[*ssa.Function]bool{}, trackAtoms: true, foldAll: true, forkLookups: true}
+	e.globals = cpInitGlobals(P)
+	e.pending = [][]bool{nil}
+	t := &compTable{byName: map[string]string{}, where: map[string]string{}, fns: map[*ssa.Function]bool{fn: true}}
+	nOK := 0
+	for len(e.pending) > 0 {
+		d := e.pending[len(e.pending)-1]
+		e.pending = e.pending[:len(e.pending)-1]
+		e.decisions, e.taken, e.steps, e.calls, e.uid, e.decided = d, nil, 0, nil, 0, map[string]bool{}
+		e.bytes, e.constraints, e.onceDone, e.varintBufs = nil, nil, nil, nil
+		e.atoms, e.atomInfo, e.bufInfo = nil, nil, nil
+		var res []cpVal
+		why := ""
+		func() {
+			defer func() {
+				if x := recover(); x != nil {
+					if a, ok := x.(cpAbort); ok {
+						why = a.why
+						return
+					}
+					panic(x)
+				}
+			}()
+			res = e.call(fn, []cpVal{cpUnk{ID: "arg:schema"}, cpUnk{ID: "arg:compression"}}, 0)
+		}()
+		if why == "panic-instr" {
+			continue
+		}
+		if why != "" || len(res) != 2 {
+			return nil, false
+		}
+		if _, errNil := res[1].(cpNil); !errNil {
+			continue
+		}
+		nOK++
+		fw, ok := res[0].(cpPtr)
+		if !ok || fw.C == nil {
+			return nil, false
+		}
+		// the field of the compression interface's type
+		recv := ""
+		if st, isS := fw.C.V.(cpStruct); isS {
+			for _, cell := range st.F {
+				if iv, isI := cell.V.(cpIface); isI && iv.T != nil && cell.T != nil {
+					if _, isIface := cell.T.Underlying().(*types.Interface); isIface {
+						recv = typeKey(iv.T)
+						if p, isP := iv.T.(*types.Pointer); isP {
+							recv = "*" + typeKey(p.Elem())
+						}
+					}
+				}
+			}
+		}
+		var names []string
+		for _, a := range e.atoms {
+			if !a.Known {
+				continue
+			}
+			eq := a.Op == token.EQL && a.Truth || a.Op == token.NEQ && !a.Truth
+			if !eq {
+				continue
+			}
+			if k, isK := a.Y.(cpStr); isK && rfIdent(a.X) == "arg:compression" {
+				names = append(names, k.V)
+			} else if k, isK := a.X.(cpStr); isK && rfIdent(a.Y) == "arg:compression" {
+				names = append(names, k.V)
+			}
+		}
+		if recv == "" {
+			t.nilSrc = true
+			continue
+		}
+		if len(names) != 1 {
+			t.defaults = append(t.defaults, recv)
+			continue
+		}
+		if prev, has := t.byName[names[0]]; has && prev != recv {
+			t.problems = append(t.problems, fmt.Sprintf("codec name %q gives both %s and %s", names[0], prev, recv))
+		}
+		t.byName[names[0]] = recv
+		t.where[names[0]] = P.pos(fn.Pos())
+		if len(e.pending) > 400 {
+			return nil, false
+		}
+	}
+	if nOK == 0 {
+		return nil, false
+	}
+	return t, true
 }
